@@ -1,5 +1,5 @@
 import sys, time, collections
-sys.path.insert(0, '/verif')
+import os; sys.path.insert(0, os.environ.get('VERIF_HOME', '/verif'))
 from pyvc import smt, verify
 import contracts
 spec = contracts.build()
